@@ -270,10 +270,40 @@ def _worker(args):
     except ShardTimeout:
         # no verdict: the exploration of this shard is incomplete (reported as a cap, exhaustive=false)
         acc.cap(f"shard_timeout_{limit}s:{shard!r}"[:120])
-    except BaseException as e:  # a crash of the harness itself, never a verdict
-        acc.harness_error(f"shard {idx} {shard!r}: {type(e).__name__}: {e}\n{traceback.format_exc()[-1500:]}")
+    except BaseException as e:
+        if not _escaped_library_exception(e, acc, shard, tier):
+            # a crash of the harness itself, never a verdict
+            acc.harness_error(f"shard {idx} {shard!r}: {type(e).__name__}: {e}\n{traceback.format_exc()[-1500:]}")
     acc.counters["shard_cpu_s_x1000"] += int((time.time() - t0) * 1000)
     return idx, acc
+
+
+def _escaped_library_exception(e, acc, shard, tier):
+    """An exception RAISED INSIDE the library under test that no oracle of the check caught: every property here promises
+    results (or named exceptions the checks expect where they occur), so this is reported as a violation of its own
+    kind - replayable by shard - instead of a harness error without verdict.  Anything raised in the harness is not."""
+    if isinstance(e, (KeyboardInterrupt, SystemExit, MemoryError)):
+        return False
+    tb = traceback.extract_tb(e.__traceback__)
+    lib_dir = os.path.join(os.path.realpath(REPO), "bibtexparser") + os.sep
+    if not tb or not os.path.realpath(tb[-1].filename).startswith(lib_dir):
+        return False
+    try:
+        acc.violation(
+            {"oracle": "library_exception_escaped_every_oracle", "exception": type(e).__name__, "where": tb[-1].name},
+            {"case": {"_shard": _listify(shard), "_tier": tier}, "observed": "".join(traceback.format_exception_only(type(e), e)).strip()[:300] + " @ " + f"{os.path.basename(tb[-1].filename)}:{tb[-1].lineno}", "expected": "a result (or an exception the check expects there)"},
+        )
+    except TooManyViolations:
+        pass
+    return True
+
+
+def _listify(x):
+    return [_listify(i) for i in x] if isinstance(x, (tuple, list)) else x
+
+
+def _tuplify(x):
+    return tuple(_tuplify(i) for i in x) if isinstance(x, (tuple, list)) else x
 
 
 def load_known():
@@ -465,7 +495,14 @@ def run_replay(modname, path):
     sigs = []
     for _ in range(2):
         acc = Acc(0)
-        mod.replay(case, acc)
+        if "_shard" in case:  # (an exception that escaped every oracle: the shard is the case)
+            try:
+                mod.run_shard(_tuplify(case["_shard"]), case.get("_tier", "quick"), acc)
+            except BaseException as e:
+                if not _escaped_library_exception(e, acc, _tuplify(case["_shard"]), case.get("_tier", "quick")):
+                    raise
+        else:
+            mod.replay(case, acc)
         sigs.append(sorted(acc.viol))
     if sigs[0] != sigs[1]:
         print(f"REPLAY-NONDETERMINISTIC {path}: {sigs}")
